@@ -18,7 +18,7 @@ no panic; every returned rate is the value of a substring of the file and
 its currency a substring of the file; a prefix's answer is an initial
 segment of the intact file's answer; at L3 a prefix prints the intact
 file's output or fails with `Error: ...` and exit status 1."""
-import hashlib, json, os, queue, re, shutil, struct, subprocess, time
+import hashlib, json, os, queue, re, shutil, struct, subprocess, sys, time
 from concurrent.futures import ThreadPoolExecutor
 import vlib
 from vlib import sx, Sym, parse_sx, try_parse
@@ -523,10 +523,8 @@ def l3_layer(c, fend, oracle, scratch, jobs, stats):
     worker = os.path.join(vlib.ROOT, 'gen', 'c20_worker.py')
     for s_ in (0, 1):
         idx = [k for k, cs in enumerate(cases) if cs[0] == s_]
-        lines = ['%s %s' % (cases[k][3].hex() or '-', cases[k][4].encode().hex()) for k in idx]
-        # an empty cache file is written as "-"?  no: "-" means absent; keep empty files distinct
-        lines = [('00' * 0 + l) for l in lines]
-        outs = vlib.run_batch([__import__('sys').executable, worker, fend, cfgs[s_], os.path.join(scratch, 'w'), CACHE_NAME[s_]],
+        lines = ['%s %s' % (cases[k][3].hex() or 'E', cases[k][4].encode().hex()) for k in idx]
+        outs = vlib.run_batch([sys.executable, worker, fend, cfgs[s_], os.path.join(scratch, 'w'), CACHE_NAME[s_]],
                               lines, timeout=120, min_chunk=10)
         for k, o in zip(idx, outs):
             p = o.split()
